@@ -133,6 +133,8 @@ let () =
         let lo = if lo = "-" then [] else List.map D_0tree.n_of_string (String.split_on_char ',' lo) in
         let (refs, rest) = take_refs (int_of_string nrefs) rest [] in
         let (u, _) = take_oracle rest in
+        (* the reference map is given with raw labels: the key is normalize_label(label, Fold) *)
+        let refs = List.map (fun (l, v) -> (M.sl_normalize_label u.M.u_fold l true, v)) refs in
         let ctx = if ctx = "n" then None else Some (D_0tree.n_of_string ctx) in
         (match M.run_inlines o u (bytes_of_hex content) lo (D_0tree.n_of_string sl) refs
                  (D_0tree.n_of_string maxref) (D_0tree.n_of_string refsize0) with
